@@ -71,6 +71,39 @@ func init() {
 	}, stdAssumptions...),
 		Quick:    []Job{ring(1, 0, rb), ring(2, 0, rb), ring(3, 0, rb), ring(4, 1, rb), ring(8, 2, rb)},
 		Thorough: []Job{ring(3, 7, rb), ring(5, 3, rb), ring(16, 4, rb), ring(32, 5, rb)}})
+
+	ck := func(fn string, params map[string]int64, reach, bounds string, qt int) Job {
+		name := fn
+		if kl, ok := params["keylen"]; ok {
+			name += "-k" + itoa(kl)
+		}
+		return Job{Pkg: "./handlers/memcached/chunked", Func: fn, Setup: "ZZSetup", Name: name, Params: params, Reach: []string{reach}, Bounds: bounds, QTimeout: qt}
+	}
+	kl := func(n int64) map[string]int64 { return map[string]int64{"keylen": n} }
+	c16q := []Job{
+		ck("ZZChunkSize", nil, "chunksize", "all key lengths 1..250 (symbolic)", 0),
+		ck("ZZSliceIndices", nil, "indices", "chunk size 1..1112, chunk number 0..999, value length up to 999 chunks, all symbolic", 0),
+		ck("ZZReaderStep", nil, "read", "one Read from any state satisfying the iterator invariant; buffer length 0..8; underlying reader returns any count", 0),
+		ck("ZZChunkKeyLen", kl(5), "chunkkey", "chunk index 0..999 symbolic, key length 5", 0),
+		ck("ZZChunkKeyLen", kl(250), "chunkkey", "chunk index 0..999 symbolic, key length 250", 0),
+	}
+	for _, k := range []int64{1, 100, 250} {
+		c16q = append(c16q, ck("ZZNumChunks", kl(k), "numchunks", "value length 0..999*payload symbolic, key length fixed (FP divisor constant)", 240000))
+	}
+	c16q = append(c16q, ck("ZZSetMetadata", kl(5), "first-request", "real Handler.Set on a value of symbolic length 0..999*payload (abstract-length bytes), path ended after the metadata request", 240000))
+	var c16t []Job
+	for _, k := range []int64{2, 16, 50, 150, 200, 249} {
+		c16t = append(c16t, ck("ZZNumChunks", kl(k), "numchunks", "value length 0..999*payload symbolic, key length fixed", 600000))
+	}
+	for _, k := range []int64{1, 250} {
+		c16t = append(c16t, ck("ZZSetMetadata", kl(k), "first-request", "real Handler.Set on a value of symbolic length", 600000))
+	}
+	reg(Check{ID: "C16", Level: "model_checking", Assumptions: append([]string{
+		"chunk count through float64: decided in the SMT floating-point theory per key length (constant divisor); key lengths between the listed ones are outside the claim for the FP detour (the integer kernels cover all 250)",
+		"float64(int) conversions proven exact (|x| <= 2^53) by a solver query are carried as integers (min/compare/convert back)",
+		"reader step: induction over Reads from the iterator invariant; buffer lengths above 8 are outside the bound",
+		"composition with the real handler runs (every data Set the backend sees has the full chunk length) is asserted by the C04 handler harness",
+	}, stdAssumptions...), Quick: c16q, Thorough: c16t})
 }
 
 func itoa(n int64) string { return strconv.FormatInt(n, 10) }
